@@ -58,8 +58,12 @@ def _cap_tables(db, chk, cfg):
                 if name in ("emplace_back", "push_back", "OffsetPoint"):
                     return None
                 return NotImplemented
-            it = Interp(db, {"end_type_": i, "deltaCallback64_": False, "group_delta_": 5.0, "floating_point_tolerance": 1e-12, "PI": 3.141592653589793},
-                        call_hook=hook)
+            # the effective end type is the member end_type_: DoGroupOffset overrides it per path (a two-point Joined path is capped Round
+            # or Square) while the group keeps what the caller asked for - so the group's own field is bound to Joined here
+            env0 = {"end_type_": i, "deltaCallback64_": False, "group_delta_": 5.0, "floating_point_tolerance": 1e-12, "PI": 3.141592653589793}
+            if f.params and "Group" in (qt(f.params[0]) or ""):
+                env0["%s.end_type" % f.params[0]["name"]] = ends.index("Joined")
+            it = Interp(db, env0, call_hook=hook)
             try:
                 # local index variables declared before the dispatch (e.g. highI = path.size() - 1)
                 for t0 in top:
